@@ -176,6 +176,7 @@ def run(repo, rep, tier):
     # the declared content type is what empty reloaded containers are compared by: it must survive zero/+/*
     rep.borrow(repo, "C04", {"R4.5": ("R10.4", "the content type that the compatibility guards compare survives zero/+/* in reloaded form", 40)},
                keep=lambda f: "contentType" in f.message or "contentType" in f.stmt)
+    r5 = rep.rule("R10.5", "on every returning path every child slot is merged by the children's own + / += (where the children's types are compared)", floor=20)
     r3 = rep.rule("R10.3", "+= rejects atomically: no state change before an operation that can still raise", floor=19)
     for c in prims:
         m = models[c.name]
@@ -275,9 +276,90 @@ def run(repo, rep, tier):
                         f"{c.name}s that differ in it are merged silently",
                         stmt=f"no guard on {fld}",
                     )
+            # ---------------- R10.5
+            ft5 = FieldTaint(repo, c, f, [sn, on], dict_fields)
+            ft5.project_slots = {s for s, k in m.slot_kind.items() if k == "single"}
+            ft5.container_project_slots = {s for s, k in m.slot_kind.items() if k != "single"}
+            ft5._fix()
+            children_merged_on_all_paths(rep, r5, c, m, f, g, ft5)
             # ---------------- R10.3
             if name == "__iadd__":
                 atomic(repo, rep, r3, c, m, f, g, ft)
+
+
+def children_merged_on_all_paths(rep, r5, c, m, f, g, ft):
+    """The types of the children are compared nowhere but in the children's own __add__/__iadd__: on every path that returns
+    normally each child slot must have gone through `x + y` / `x += y` with x from self's slot and y from other's (a loop or
+    comprehension that does it counts: no children, nothing to compare); `self + other` (delegating +=) merges every slot."""
+    sn, on = f.params
+    if not m.slots:
+        return
+    merges = {}          # id(expr or stmt) -> set(slots)
+
+    def both(la, lb):
+        out = set()
+        for s in m.slots:
+            if any(p == sn and fl == s and fv == "full" for (p, fl, fv, z) in la) and any(p == on and fl == s and fv == "full" for (p, fl, fv, z) in lb):
+                out.add(s)
+        return out
+
+    # fields of local objects (the result under construction): `out.bins = {... self.bins ...}` makes out.bins[i] a child of self
+    local_fields = {}
+    for n in walk_local_stmt(f.node):
+        if isinstance(n, ast.Assign):
+            for t in n.targets:
+                if isinstance(t, ast.Attribute) and isinstance(t.value, ast.Name) and t.value.id not in (sn, on):
+                    local_fields[(t.value.id, t.attr)] = local_fields.get((t.value.id, t.attr), frozenset()) | ft.L(n.value, ft.env)
+
+    def lab(e, env):
+        b = e
+        while isinstance(b, ast.Subscript):
+            b = b.value
+        if isinstance(b, ast.Attribute) and isinstance(b.value, ast.Name) and (b.value.id, b.attr) in local_fields:
+            return local_fields[(b.value.id, b.attr)] | ft.L(e, env)
+        return ft.L(e, env)
+
+    def visit(node, env):
+        if isinstance(node, ast.BinOp) and isinstance(node.op, ast.Add):
+            if isinstance(node.left, ast.Name) and isinstance(node.right, ast.Name) and {node.left.id, node.right.id} == {sn, on}:
+                merges[id(node)] = set(m.slots)
+                return
+            la, lb = lab(node.left, env), lab(node.right, env)
+            got = both(la, lb) | both(lb, la)
+            if got:
+                merges[id(node)] = got
+
+    ft.visit_exprs(f.node, visit)
+    for n in walk_local_stmt(f.node):
+        if isinstance(n, ast.AugAssign) and isinstance(n.op, ast.Add):
+            tl = lab(n.target, ft.env) if not isinstance(n.target, ast.Name) else ft.env.get(n.target.id, frozenset())
+            got = both(tl, ft.L(n.value, ft.env))
+            if got:
+                merges[id(n)] = got
+
+    def gens_under(root):
+        out = set()
+        for x in ast.walk(root):
+            out |= merges.get(id(x), set())
+        return out
+
+    def transfer(node, st):
+        if node.kind == "stmt" and node.ast is not None and not isinstance(node.ast, (ast.For, ast.While, ast.If, ast.Try, ast.With)):
+            return frozenset(set(st) | gens_under(node.ast))
+        if node.kind == "iter" and node.stmt is not None:
+            return frozenset(set(st) | gens_under(node.stmt))
+        return st
+
+    states = solve_forward(g, frozenset(), transfer, lambda a, b: a & b)
+    for n in g.nodes:
+        if n.kind == "stmt" and isinstance(n.ast, ast.Return) and n.id in states:
+            have = set(transfer(n, states[n.id]))
+            missing = [x for x in m.slots if x not in have]
+            r5.ob(not missing, f"{f.qualname}: return at line {n.ast.lineno}: child slots merged by the children themselves: {sorted(have)}")
+            if missing:
+                rep.finding("R10.5", f, n.ast, f"the path returning at line {n.ast.lineno} has not passed the children of {missing} through their own "
+                            f"`+`/`+=`: the child aggregators' types and parameters are compared nowhere else, so on that path a {c.name} whose "
+                            f"children are of another kind is merged (or partly merged) without an exception", stmt=f"children of {missing} not merged by + on a returning path")
 
 
 def atomic(repo, rep, r3, c, m, f, g, ft):
